@@ -96,6 +96,74 @@ func (c *Ctx) nonNilValue(v ssa.Value, at ssa.Instruction, depth int) bool {
 		if fv, _ := loadedField(t); fv != nil && c.fieldNeverNil(fv, depth+1) {
 			return true
 		}
+		// a result variable filled in by a closure that a "run this under the lock" helper has called by now:
+		// the cell is assigned only inside that closure, on every path of it, with a non-nil value
+		realStores := func(al *ssa.Alloc) int {
+			k := 0
+			for _, st := range cellStores(al) {
+				// "return me" with a named result stores the variable to itself
+				if ld, ok := st.Val.(*ssa.UnOp); ok && ld.Op == token.MUL && ld.X == ssa.Value(al) {
+					continue
+				}
+				if st.Parent() != al.Parent() {
+					continue // assignments inside closures are looked at below
+				}
+				k++
+			}
+			return k
+		}
+		if al, isAl := t.X.(*ssa.Alloc); isAl && t.Op == token.MUL && realStores(al) == 0 && depth < 8 {
+			fn := al.Parent()
+			for _, anon := range fn.AnonFuncs {
+				idx := -1
+				var mcl *ssa.MakeClosure
+				funcInstrs(fn, func(in ssa.Instruction) {
+					if mc, ok := in.(*ssa.MakeClosure); ok && mc.Fn == ssa.Value(anon) {
+						for i, b := range mc.Bindings {
+							if b == ssa.Value(al) {
+								idx, mcl = i, mc
+							}
+						}
+					}
+				})
+				if idx < 0 || mcl == nil {
+					continue
+				}
+				// the closure is handed to a helper that calls it, and that call dominates the load
+				ran := false
+				for _, ref := range *mcl.Referrers() {
+					if call, ok := ref.(*ssa.Call); ok && !call.Call.IsInvoke() && call.Call.StaticCallee() != nil && c.callsOnlyItsFuncParam(call.Call.StaticCallee()) && instrDominates(call, t) {
+						ran = true
+					}
+				}
+				if !ran {
+					continue
+				}
+				fvv := anon.FreeVars[idx]
+				var sts []*ssa.Store
+				okAll := true
+				for _, ref := range *fvv.Referrers() {
+					if st, ok := ref.(*ssa.Store); ok && st.Addr == ssa.Value(fvv) {
+						sts = append(sts, st)
+						if !c.nonNilValue(st.Val, st, depth+1) {
+							okAll = false
+						}
+					}
+				}
+				if okAll && len(sts) > 0 {
+					if all, _ := AllPathsFromEntryPass(anon, func(in ssa.Instruction) bool {
+						for _, st := range sts {
+							if in == ssa.Instruction(st) {
+								return true
+							}
+						}
+						return false
+					}); all {
+						return true
+					}
+				}
+			}
+		}
 	}
 	return c.guardedNonNil(v, at)
 }
@@ -350,7 +418,8 @@ type deepCall struct {
 	Site   ssa.CallInstruction
 	Args   []ssa.Value
 	Anchor ssa.Instruction
-	Inner  []Cond // conditions inside the helper guarding the call
+	Inner  []Cond                       // conditions inside the helper guarding the call
+	Subst  map[*ssa.Parameter]ssa.Value // helper parameter -> what the handler passes
 }
 
 func (c *Ctx) deepTrackerCalls(h *ssa.Function, name string) []deepCall {
@@ -379,7 +448,13 @@ func (c *Ctx) deepTrackerCalls(h *ssa.Function, name string) []deepCall {
 				}
 				args = append(args, res)
 			}
-			out = append(out, deepCall{Site: cs, Args: args, Anchor: hs, Inner: CondsAt(cs.Block())})
+			sub := map[*ssa.Parameter]ssa.Value{}
+			for i, q := range cal.Params {
+				if i < len(hs.Common().Args) {
+					sub[q] = hs.Common().Args[i]
+				}
+			}
+			out = append(out, deepCall{Site: cs, Args: args, Anchor: hs, Inner: CondsAt(cs.Block()), Subst: sub})
 		}
 	}
 	return out
@@ -400,6 +475,10 @@ func runC17(c *Ctx) {
 	if pf := c.producerFrame(); r.Anchor("R8", "the receive goroutine that feeds the inbound queue", pf != nil) {
 		c.handoverRule("R8", pf.Member)
 	}
+	r.Rule("R10", "the nick handlers that are registered are the ones that run: each dispatch on a handler set iterates over a snapshot built afresh under the set's lock (shared with C05.R5) - a cached list that add() forgets to invalidate leaves the state NICK handler out after tracking is switched on, and Me() never follows the client's nick again")
+	c.snapshotRule("R10", c.ComputeLocksets(c.clientFuncs()), c.lockFieldName(c.Client, "hSet"))
+	r.Rule("R11", "the nick handlers see whole lines, however long: socket reads in the receive goroutine are ReadString / ReadBytes('\\n') on the connection's reader (shared with C18.R3) - ReadLine with its isPrefix result dropped cuts a long tagged 433, 001 or NICK line in two")
+	c.framingRule("R11")
 	r.Rule("R9", "switching tracking on starts from the current nick: every non-nil value stored to the client's tracker field is the result of state.NewTracker(Config.Me.Nick) called in the same function - a tracker kept from before (whose own record still has the nick of that time) is never put back into service")
 	c.trackerInstalledFreshRule("R9")
 	r.Rule("R5", "the built-in handlers that keep the nick current (internal table: 001, 433, NICK) stay registered for the life of the client: no Remover obtained by registering an internal-table handler is ever invoked, whichever way tracking is switched")
@@ -809,6 +888,24 @@ func runC18(c *Ctx) {
 	// ---- R1
 	h := a.IntTable["REGISTER"]
 	r.Anchor("R1", "REGISTER handler", h != nil)
+	r.Rule("R12", "registration and PONGs are written whatever the configured Timeout: no deadline stays armed on the socket (shared with C07.R8) - a per-line write deadline of now + Config.Timeout has already passed when Timeout is 0, the first write fails and nothing is ever sent")
+	c.noArmedDeadlineRule("R12")
+	r.Rule("R13", "the registration is sent once per connect: the REGISTER handler runs only because the REGISTER event was dispatched (once per successful connect, C06.R1) - no function of the library calls it directly or takes its value outside the handler table (a numeric handler that 're-sends the registration' repeats CAP LS / PASS / NICK / USER on the same connection)")
+	if h != nil {
+		nCall := 0
+		for _, cs := range c.Callers(h) {
+			nCall++
+			r.Add("R13", "register-called:"+c.FuncKey(cs.Parent()), c.InstrPos(cs), c.FuncKey(cs.Parent()), "the REGISTER handler is reached only through the handler table", false, "called directly from "+c.FuncKey(cs.Parent()))
+		}
+		r.Add("R13", "register-only-dispatched", c.Pos(h.Pos()), c.FuncKey(h), "the REGISTER handler has no direct callers", nCall == 0, fmt.Sprintf("%d direct calls", nCall))
+		inTables := 0
+		for _, f := range a.IntTable {
+			if f == h {
+				inTables++
+			}
+		}
+		r.Add("R13", "register-one-entry", c.Pos(h.Pos()), c.FuncKey(h), "the REGISTER handler is registered under one event only", inTables == 1, fmt.Sprintf("%d table entries", inTables))
+	}
 	if h != nil {
 		r.Funcs[c.FuncKey(h)] = true
 		byName := map[string][]ssa.CallInstruction{}
@@ -963,7 +1060,24 @@ func runC18(c *Ctx) {
 			return false
 		}
 		cal := cc.StaticCallee()
-		return cal != nil && cal.Package() == c.Client && dialHelper(cal, 0)
+		if cal == nil {
+			// a dial strategy chosen as a function value: every possible target must be a dial helper
+			cs, isCS := in.(ssa.CallInstruction)
+			if !isCS {
+				return false
+			}
+			edges := c.Callees(cs)
+			if len(edges) == 0 {
+				return false
+			}
+			for _, e := range edges {
+				if e.Callee == nil || e.Callee.Package() != c.Client || !dialHelper(e.Callee, 0) {
+					return false
+				}
+			}
+			return true
+		}
+		return cal.Package() == c.Client && dialHelper(cal, 0)
 	}
 	// a helper counts as a dial step when every return that is not definitely an error follows a dial
 	dialHelper = func(fn *ssa.Function, depth int) bool {
@@ -1148,10 +1262,20 @@ func runC18(c *Ctx) {
 	// ---- R4
 	var pingFn *ssa.Function
 	pingCmd := c.Func(c.Client, "(*Conn).Ping")
+	// the frame that holds the tick loop: the member itself, or the one unexported helper it calls for the loop
+	var loopFn *ssa.Function
 	for _, m := range a.Members {
 		for _, cs := range CallSites(m) {
-			if cs.Common().StaticCallee() == pingCmd && pingCmd != nil {
-				pingFn = m
+			sc := cs.Common().StaticCallee()
+			if sc == pingCmd && pingCmd != nil {
+				pingFn, loopFn = m, m
+			}
+			if _, isCall := cs.(*ssa.Call); isCall && sc != nil && pingCmd != nil && sc != pingCmd && c.InModuleFn(sc) && sc.Package() == c.Client && (sc.Object() == nil || !sc.Object().Exported()) && len(c.staticCallers(sc)) == 1 && c.LoopDepth(cs.Block()) == 0 {
+				for _, c2 := range CallSites(sc) {
+					if c2.Common().StaticCallee() == pingCmd && pingFn == nil {
+						pingFn, loopFn = m, sc
+					}
+				}
 			}
 		}
 	}
@@ -1200,7 +1324,7 @@ func runC18(c *Ctx) {
 		r.Add("R4", "ticker-period", posIn(c, ticker), c.FuncKey(pingFn), "the ticker period is PingFreq", okT, "time.NewTicker(Config.PingFreq)")
 		okP := false
 		whyP := "no tick case found"
-		for _, op := range ChanOps(pingFn) {
+		for _, op := range ChanOps(loopFn) {
 			if op.Kind == "recv" && op.InSelect && isTimerChan(op.Chan) {
 				if blk := selectCaseBlock(op.Sel, op.State); blk != nil {
 					// every path from the tick case back to the select passes a Ping call
@@ -1420,6 +1544,49 @@ func runC19(c *Ctx) {
 		}
 		return out
 	}
+	r.Rule("R11", "CAP END is only ever said while handling a server reply of the current connection: every call that says Cap(END) (directly or through a function every path of which says it) lies in a function reached from the built-in handler table by plain static calls - never in a closure handed to a timer, a goroutine or any other function value (a watchdog armed for one connection fires into the next and ends its negotiation in the middle of SASL)")
+	{
+		var roots []*ssa.Function
+		for _, f := range a.IntTable {
+			roots = append(roots, f)
+		}
+		sort.Slice(roots, func(i, j int) bool { return c.FuncKey(roots[i]) < c.FuncKey(roots[j]) })
+		inH := map[*ssa.Function]bool{}
+		var walk func(fn *ssa.Function, d int)
+		walk = func(fn *ssa.Function, d int) {
+			if fn == nil || inH[fn] || d > 8 || !c.InModuleFn(fn) {
+				return
+			}
+			inH[fn] = true
+			for _, cs := range CallSites(fn) {
+				if _, isCall := cs.(*ssa.Call); !isCall || cs.Common().IsInvoke() {
+					continue
+				}
+				walk(cs.Common().StaticCallee(), d+1)
+			}
+		}
+		for _, f := range roots {
+			walk(f, 0)
+		}
+		nEnd := 0
+		for _, fn := range c.clientFuncs() {
+			if fn == capFn {
+				continue
+			}
+			for _, cs := range capCalls(fn, "END") {
+				nEnd++
+				ok := inH[fn] && kindName(cs) == "call"
+				why := "in the handler context"
+				if !ok {
+					why = kindName(cs) + " in " + c.FuncKey(fn) + ", which is not reached from a built-in handler by plain calls (a timer callback, goroutine or stored closure)"
+				}
+				r.Add("R11", fmt.Sprintf("end-in-handler:%s#%d", c.FuncKey(fn), nEnd), c.InstrPos(cs), c.FuncKey(fn), "CAP END is said only while handling a server reply", ok, why)
+			}
+		}
+		r.Floor("R11", "sites that say CAP END", nEnd, 4)
+	}
+	r.Rule("R12", "what was negotiated on a connection is not wiped under the next one: after dispatching DISCONNECTED the teardown writes nothing and calls nothing of the library (shared with C07.R12) - a DISCONNECTED handler may already have reconnected and negotiated")
+	c.nothingAfterDisconnectedRule("R12")
 	// ---- R1: find the function with Cap(REQ)
 	var neg *ssa.Function
 	for _, fn := range c.clientFuncs() {
@@ -3036,4 +3203,48 @@ func (c *Ctx) trackerInstalledFreshRule(rule string) {
 		})
 	}
 	r.Floor(rule, "sites that install a tracker", n, 1)
+}
+
+// nothingAfterDisconnectedRule: in the teardown, once DISCONNECTED has been
+// dispatched, nothing of the client is written and no function of the library
+// is called: foreground DISCONNECTED handlers run inside the teardown and may
+// have re-established the connection, so whatever the teardown "tidies up"
+// afterwards (queues, capability sets, SASL state) belongs to the new
+// connection.
+func (c *Ctx) nothingAfterDisconnectedRule(rule string) {
+	r, a := c.R, c.A
+	n := 0
+	for _, td := range []*ssa.Function{a.Teardown, a.TeardownCore} {
+		if td == nil {
+			continue
+		}
+		if td == a.TeardownCore && a.Teardown == a.TeardownCore && n > 0 {
+			continue
+		}
+		for _, cs := range CallSites(td) {
+			if cs.Common().StaticCallee() != a.ConnDispatch {
+				continue
+			}
+			n++
+			bad := ""
+			for in := range ReachFrom(cs, false, nil) {
+				switch t := in.(type) {
+				case *ssa.Store:
+					if !c.allOriginsLocalAlloc(t.Addr, td) {
+						bad = "store at " + c.InstrPos(t)
+					}
+				case *ssa.MapUpdate:
+					bad = "map update at " + c.InstrPos(t)
+				case ssa.CallInstruction:
+					for _, e := range c.Callees(t) {
+						if e.Callee != nil && c.InModuleFn(e.Callee) && e.Callee.Package() != c.Logging {
+							bad = "call of " + c.FuncKey(e.Callee) + " at " + c.InstrPos(t)
+						}
+					}
+				}
+			}
+			r.Add(rule, fmt.Sprintf("after-disconnected:%s#%d", c.FuncKey(td), n), c.InstrPos(cs), c.FuncKey(td), "after the DISCONNECTED dispatch the teardown only returns", bad == "", bad+" runs after DISCONNECTED handlers, which may have reconnected")
+		}
+	}
+	r.Floor(rule, "DISCONNECTED dispatch in the teardown", n, 1)
 }
